@@ -6,7 +6,8 @@
 //       the running total counts it twice while the input map keyed by outpoint holds it once: "actual inputs 2000070 < outputs + min fee 2164225")
 //   largest_first_offered_overlaps_existing_input       FAILS (actual inputs 3000000 < outputs + min fee 5164225)
 //   largest_first_offered_repeats_a_utxo                FAILS (same numbers)
-// On the repaired tree all three pass.
+//   random_improve_two_identical_outputs                FAILS before the third fix (KF-33): 200 of 200 runs, actual inputs 4100000 < outputs + min fee 4171881
+// On the repaired tree all four pass.
 use cardano_serialization_lib::*;
 
 fn key_hash(x: u8) -> Ed25519KeyHash { Ed25519KeyHash::from_bytes(vec![x; 28]).unwrap() }
@@ -86,4 +87,27 @@ fn largest_first_offered_repeats_a_utxo() {
         let need = n(&b.get_explicit_output().unwrap().coin()) + n(&b.min_fee().unwrap());
         assert!(have >= need, "selection reported success but actual inputs {} < outputs + min fee {}", have, need);
     }
+}
+
+#[test]
+fn random_improve_two_identical_outputs() {
+    let mut bad = 0; let mut ok = 0; let mut first: Option<String> = None;
+    for _trial in 0..200 {
+        let mut b = new_builder();
+        // two payments of the same amount to the same address
+        b.add_output(&TransactionOutput::new(&addr(200), &Value::new(&BigNum::from(2_000_000u64)))).unwrap();
+        b.add_output(&TransactionOutput::new(&addr(200), &Value::new(&BigNum::from(2_000_000u64)))).unwrap();
+        let mut offered = TransactionUnspentOutputs::new();
+        for i in 0..6u8 { offered.add(&utxo(i + 1, 2_050_000)); }
+        if b.add_inputs_from(&offered, CoinSelectionStrategyCIP2::RandomImprove).is_err() { continue; }
+        ok += 1;
+        let have = n(&b.get_explicit_input().unwrap().coin());
+        let need = n(&b.get_explicit_output().unwrap().coin()) + n(&b.min_fee().unwrap());
+        if have < need {
+            bad += 1;
+            if first.is_none() { first = Some(format!("actual inputs {} < outputs + min fee {}", have, need)); }
+        }
+    }
+    eprintln!("identical outputs: ok={} bad={}", ok, bad);
+    assert!(bad == 0, "{} of {} successful selections left the builder uncovered; first: {}", bad, ok, first.unwrap());
 }
